@@ -335,9 +335,8 @@ Inductive mp_state : Type :=
 | MPNone
 | MPBest (v : tipview) (p : list nat).
 
-(** Tree.RerootMidPoint() *)
-Definition reroot_midpoint (t : utree) : res utree :=
-  let t1 := unroot t in
+(** Tree.RerootMidPoint() after t.UnRoot(), on a tree whose root has at least two neighbours *)
+Definition reroot_midpoint_gen (t1 : utree) : res utree :=
   (* the longest of the longest paths from every tip, first one wins *)
   let scan :=
       fold_left (fun (st : res (mp_state * Q)) (pn : list nat * utree) =>
@@ -397,3 +396,25 @@ Definition reroot_midpoint (t : utree) : res utree :=
       end
     end
   end.
+
+(** The only input (well-formed, root with two neighbours) that UnRoot leaves rooted at a tip is
+    the rooted two-tip tree (a:x,b:y): UnRoot gives the one-branch tree b -- a, the first tip of
+    Tips() is the root b itself, its longest path is the single branch (Left() = b, Right() = a),
+    the walk stops after that branch and the new root is inserted in its middle:
+    newroot.neigh = [a; b], lengths l - cut and cut with cut = l - l/2. *)
+Definition midpoint_two (t1 : utree) : res utree :=
+  match t1 with
+  | UNode nb cb [Some (e3, UNode na ca [None])] =>
+    if qeqb (elen e3) nilv then Err "some branches have no length"
+    else if qltb 0 (elen e3) then
+      let cut := (elen e3 - qhalf (elen e3))%Q in
+      Ok (UNode "" [] [Some (mkE (elen e3 - cut)%Q (esup e3) nilv [], UNode na ca [None]);
+                       Some (mkE cut (esup e3) nilv [], UNode nb cb [None])])
+    else Err "cannot reroot at midpoint: all tip to tip paths have a null length"
+  | _ => Err "model: tree rooted at a tip"
+  end.
+
+(** Tree.RerootMidPoint() *)
+Definition reroot_midpoint (t : utree) : res utree :=
+  let t1 := unroot t in
+  if Nat.ltb (degree t1) 2 then midpoint_two t1 else reroot_midpoint_gen t1.
